@@ -35,13 +35,23 @@ def run(ck):
         raise vlib.Infra("Modules.tla violates %s:\n%s" % (r.violated, r.stdout[-3000:]))
     graphs = r.tagged("GRAPH")
     ck.log("Modules.tla: %d states, %d graphs" % (r.distinct, len(graphs)))
+    # every graph is compiled twice: with the model's module names, and with names that are path-like aliases of one another
+    # ("m", "./m", "lib/../m", "m/.") - distinct entries of the module map that must stay distinct modules
+    ALIAS = {"a": "m", "b": "./m", "c": "lib/../m", "d": "m/."}
     cases = [{"id": i, "imports": g["imports"]} for i, g in enumerate(graphs)]
+    cases += [{"id": len(graphs) + i, "imports": g["imports"], "rename": ALIAS} for i, g in enumerate(graphs)]
     res = vlib.run_cases(ck, "modgraph", cases, nproc=12)
     ncyc = 0
-    for i, g in enumerate(graphs):
-        o = res[i]
+    for ci, cs in enumerate(cases):
+        i = ci % len(graphs)
+        g = graphs[i]
+        o = res[ci]
         ck.evaluations += 1
-        rep = {"imports": g["imports"], "model": {"result": g["result"], "compiles": g["compiles"]}, "real": o}
+        rep = {"imports": g["imports"], "rename": cs.get("rename"), "model": {"result": g["result"], "compiles": g["compiles"]}, "real": o}
+        if o.get("wrong_module"):
+            ck.violation("graph-wrong-module" + (":aliases" if cs.get("rename") else ""), "import graph %s (names %s): %s" % (
+                json.dumps(g["imports"]), cs.get("rename") or "as in the model", o["wrong_module"]), rep)
+            continue
         if o.get("hang") or o.get("died") or o.get("result") == "panic":
             ck.violation("graph-host-down", "compiling an import graph did not return: %s" % json.dumps(g["imports"]), rep)
             continue
@@ -83,6 +93,43 @@ def run(ck):
             agree += 1
             ck.traces += 1
     ck.extra["module_programs_agree"] = agree
+    # ---- isolation matrix: where the import expression stands in the importer x what the imported module refers to
+    icases = []
+    refs = {"importer-global": ("ig", False), "importer-function-local": ("loc", False), "importer-parameter": ("par", False),
+            "importer-block-local": ("blk", False), "main-global": ("mg", False), "builtin": ("len", True), "own": ("mine", True)}
+    places = {
+        "top": "%s",
+        "block": "if true {\n  blk := 4\n  %s\n}",
+        "function": "fn := func(par) {\n  loc := 3\n  %s\n  return 0\n}\nfn(1)",
+        "nested-function": "fn := func(par) {\n  loc := 3\n  return func() {\n    blk := 4\n    %s\n    return 0\n  }()\n}\nfn(1)",
+        "loop-in-function": "fn := func(par) {\n  loc := 3\n  for blk := 0; blk < 1; blk++ {\n    %s\n  }\n  return 0\n}\nfn(1)",
+    }
+    for importer in ("main", "module"):
+        for place, tmpl in places.items():
+            for rname, (ident, legal) in refs.items():
+                inner = "mine := 1\nexport %s\n" % (ident if ident != "len" else "len([1])")
+                body = "ig := 2\n" + (tmpl % 'got := import("inner")') + "\n"
+                if importer == "main":
+                    prog = {"src": "mg := 1\n" + body, "mods": [{"name": "inner", "src": inner}]}
+                else:
+                    prog = {"src": 'mg := 1\nouter := import("outer")\n', "mods": [{"name": "outer", "src": body + "export 0\n"}, {"name": "inner", "src": inner}]}
+                prog.update({"id": len(icases) + 1, "inputs": [], "legal": legal, "tag": "%s/%s/%s" % (importer, place, rname)})
+                icases.append(prog)
+    ireal = semlib.real_outcomes(ck, icases, nproc=6)
+    for c in icases:
+        o = ireal[c["id"]]
+        ck.evaluations += 1
+        rep = {"case": c, "real": o}
+        if o.get("k") in ("host_down", "timeout"):
+            ck.violation("isolation-host-down:" + c["tag"], "isolation case %s did not return: %s" % (c["tag"], str(o)[:300]), rep)
+        elif c["legal"] and o.get("k") != "ok":
+            ck.violation("isolation-rejected:" + c["tag"], "module referring to %s must compile and run (%s): %s" % (c["tag"].split("/")[2], c["tag"], str(o.get("msg"))[:200]), rep)
+        elif not c["legal"] and not (o.get("k") == "compile_error" and o.get("kind") == "unresolved_reference"):
+            ck.violation("isolation-leak:" + c["tag"].split("/")[2] + ":" + c["tag"].split("/")[1], "the imported module refers to a name of its importer (%s) and is not rejected as unresolved: %s" % (
+                c["tag"], str(o)[:300]), rep)
+        else:
+            ck.traces += 1
+    ck.extra["isolation_cases"] = len(icases)
     # ---- file import disabled: names resolve from the module map only
     fcases = []
     names = ["m", "./m", "../m", "sub/m", "{dir}/m", "{dir}/sub/m", "m.tengo", "./m.tengo", "{dir}/m.tengo", "decoy", "../decoy", "/etc/passwd", ""]
